@@ -1036,6 +1036,15 @@ func init() {
 							why = "no '=' is written under the branch"
 						}
 						okEq = why == ""
+						if !okEq {
+							// the early-return form: `if opt && value == "" { return }; write '='; escape(value)` - what the
+							// option's arm leaves out is the '=' and calls that do nothing for the value known to be empty there
+							if ok2, why2 := skipEqualsEarlyReturn(c, st.f, iff); ok2 {
+								okEq, why = true, ""
+							} else if why2 != "" {
+								why = why + "; " + why2
+							}
+						}
 					}
 					s.Check(okEq, key, pos, "decides only whether '=' is written", "the option decides something other than the '=' of an empty value ("+why+")")
 				default:
@@ -1046,6 +1055,172 @@ func init() {
 			}
 		},
 	})
+}
+
+// skipEqualsEarlyReturn: the branch on the option (possibly `opt && value == ""`) has an arm that does nothing but
+// leave the function, and the other arm writes "=" and otherwise only calls functions that work element by element
+// on the very value the first arm knows to be empty.
+func skipEqualsEarlyReturn(c *Ctx, f *ssa.Function, iff *ssa.If) (bool, string) {
+	ff := Facts(c, f)
+	// the arm with the option on
+	on := iff.Block().Succs[0]
+	if fs := normFact(iff.Cond, true); len(fs) == 1 && !fs[0].Val {
+		on = iff.Block().Succs[1]
+	}
+	// follow a further test of "value is empty" on that arm
+	var emptyVal ssa.Value
+	quiet := on
+	for steps := 0; steps < 3; steps++ {
+		i2, ok := lastIf(quiet)
+		if !ok {
+			break
+		}
+		bo, ok := i2.Cond.(*ssa.BinOp)
+		if !ok || (bo.Op != token.EQL && bo.Op != token.NEQ) {
+			break
+		}
+		var v ssa.Value
+		for _, pr := range [][2]ssa.Value{{bo.X, bo.Y}, {bo.Y, bo.X}} {
+			if k, isK := constString(pr[1]); isK && k == "" {
+				v = pr[0]
+			}
+		}
+		if v == nil {
+			break
+		}
+		emptyVal = v
+		if bo.Op == token.EQL {
+			quiet = quiet.Succs[0]
+		} else {
+			quiet = quiet.Succs[1]
+		}
+	}
+	// the quiet arm: nothing but a return
+	for _, ins := range quiet.Instrs {
+		switch ins.(type) {
+		case *ssa.Return, *ssa.DebugRef:
+		default:
+			return false, "the arm taken with the option on does more than return"
+		}
+	}
+	if _, isRet := quiet.Instrs[len(quiet.Instrs)-1].(*ssa.Return); !isRet {
+		return false, ""
+	}
+	// everything else behind the branch
+	seen := map[*ssa.BasicBlock]bool{quiet: true}
+	var other []*ssa.BasicBlock
+	var walk func(b *ssa.BasicBlock)
+	walk = func(b *ssa.BasicBlock) {
+		if seen[b] {
+			return
+		}
+		seen[b] = true
+		other = append(other, b)
+		for _, sc := range b.Succs {
+			walk(sc)
+		}
+	}
+	for _, sc := range iff.Block().Succs {
+		if sc != on {
+			walk(sc)
+		}
+	}
+	if on != quiet {
+		for _, sc := range on.Succs {
+			walk(sc)
+		}
+	}
+	_ = ff
+	sameSource := func(a, b ssa.Value) bool {
+		if a == b {
+			return true
+		}
+		la, ok1 := a.(*ssa.UnOp)
+		lb, ok2 := b.(*ssa.UnOp)
+		if ok1 && ok2 && la.Op == token.MUL && lb.Op == token.MUL {
+			fa, ok1 := la.X.(*ssa.FieldAddr)
+			fb, ok2 := lb.X.(*ssa.FieldAddr)
+			return ok1 && ok2 && fa.X == fb.X && fa.Field == fb.Field
+		}
+		return false
+	}
+	wrote := false
+	for _, b := range other {
+		if b == on {
+			continue
+		}
+		for _, ins := range b.Instrs {
+			switch x := ins.(type) {
+			case *ssa.Call:
+				if w, isW := builderWriteConst(x); isW && w == "=" {
+					wrote = true
+					continue
+				}
+				cl := x.Common().StaticCallee()
+				okCall := false
+				if cl != nil && c.P.InModule(cl) && emptyVal != nil {
+					for i, a := range x.Common().Args {
+						if sameSource(a, emptyVal) && i < len(cl.Params) && elementwiseOver(cl, cl.Params[i]) {
+							okCall = true
+						}
+					}
+				}
+				if !okCall {
+					return false, "the other arm also calls " + callName(x)
+				}
+			case *ssa.Store, *ssa.MapUpdate, *ssa.Send, *ssa.Go, *ssa.Defer, *ssa.Panic:
+				return false, "the other arm has another effect than writing '='"
+			}
+		}
+	}
+	if !wrote {
+		return false, "no '=' is written on the other arm"
+	}
+	return true, ""
+}
+
+// elementwiseOver: every call and store of f lies inside a loop that ranges over the string parameter p - f does
+// nothing for the empty string.
+func elementwiseOver(f *ssa.Function, p *ssa.Parameter) bool {
+	if len(f.Blocks) == 0 {
+		return false
+	}
+	var rng *ssa.Range
+	for _, r := range *p.Referrers() {
+		if x, ok := r.(*ssa.Range); ok {
+			rng = x
+		}
+	}
+	if rng == nil {
+		return false
+	}
+	// the loop: blocks dominated by the body entry (the successor of the Next test that stays in the loop)
+	var body *ssa.BasicBlock
+	for _, b := range f.Blocks {
+		for _, ins := range b.Instrs {
+			if nx, ok := ins.(*ssa.Next); ok && nx.Iter == ssa.Value(rng) {
+				if iff, ok := lastIf(b); ok {
+					_ = iff
+					body = b.Succs[0]
+				}
+			}
+		}
+	}
+	if body == nil {
+		return false
+	}
+	for _, b := range f.Blocks {
+		inLoop := body.Dominates(b)
+		for _, ins := range b.Instrs {
+			switch ins.(type) {
+			case *ssa.Call, *ssa.Store, *ssa.MapUpdate, *ssa.Send, *ssa.Go, *ssa.Defer, *ssa.Panic:
+				if !inLoop {
+					return false
+				}
+			}
+		}
+	}
+	return true
 }
 
 // truthImplies: v being true implies that a call to the named predicate answered true — directly, or through a module
